@@ -722,6 +722,22 @@ def run(tier, seed):
         "samples": [{"trait": rust_trait(i, traits[i]), "driver": rust_driver(i, 0, traits[i]), "model": coq_case(traits[i], 0)} for i in (0, 1, 2)],
         "distribution": dict(sorted(dist.items())),
     }
+    # receiver part: the default-impl arm of the generated impls (the fourth arm next to Return / Answer / Unmock): provided methods of
+    # every receiver kind, their default bodies called with the caller's arguments on the very instance / a helper of it
+    dn, dpayload = 0, None
+    if not failing and not probe_bad:
+        from .. import deleg_part as DP
+        from . import C15
+        dn, dpayload = DP.run_part("C05", "deleg05", [C15.gen_case(rng) for _ in range(40 if tier == "quick" else 300)], seed,
+                                   "correspondence C05 (receiver part): the CallDefaultImpl arm of the generated impls for every receiver kind vs the model")
+        cov["receiver_part"] = {"evaluations": dn, "rule": "C15 generator (trait D: &self, &mut self, self, Rc / Arc sole or shared, Pin; original and clones)"}
+        cov["obligations"] += 1
+        cov["discharged"] += 0 if dpayload else 1
+    if dpayload is not None:
+        path = C.write_replay("C05", seed, dpayload)
+        C.write_evidence("C05", tier, seed, cov, time.time() - t0, 1)
+        C.violation("C05", path)
+        return 1
     if failing:
         ti, mi = failing
         t1, m1 = shrink(traits[ti], mi, 3 if tier == "quick" else 6, compile_failure)
@@ -763,6 +779,9 @@ def run(tier, seed):
 
 def replay(path):
     payload = json.load(open(path))
+    if payload.get("part") == "deleg":
+        from .. import deleg_part as DP
+        return DP.replay("C05", payload, path)
     case = payload.get("case")
     if case is None:
         print("replay file names an obligation, not an input:", payload.get("theorem_or_correspondence"))
